@@ -11,45 +11,11 @@
 (* names, structure x flags, records x release date), each in v1-v3 and in *)
 (* two record orders.                                                      *)
 (***************************************************************************)
-EXTENDS HpoBinary, HpoGraph, TLC, Json
+EXTENDS OntGen, TLC, Json
 
 CONSTANT Families        \* subset of {"A", "B", "C", "D"}
 
 VARIABLE c               \* the chosen parameter record
-
-Rep(ch, n) == [i \in 1..n |-> ch]
-Ascii(str) == str        \* names below are given directly as sequences of byte sequences
-
-A1 == <<65>>   \* "A"
-NameShapes ==
-  [ short    |-> <<<<65>>, <<98>>>>,                                        \* "Ab"
-    empty    |-> <<>>,
-    colon    |-> <<<<65>>, <<58>>, <<32>>, <<66>>>>,                        \* "A: B"
-    nonascii |-> <<<<195, 169>>, <<240, 159, 152, 128>>, <<122>>>>,          \* "e-acute, emoji, z"
-    b255     |-> Rep(<<97>>, 255),
-    b256     |-> Rep(<<97>>, 256),
-    b254p2   |-> Rep(<<97>>, 254) \o <<<<195, 169>>>>,                      \* 256 bytes, cut inside a 2-byte char
-    b253p4   |-> Rep(<<97>>, 253) \o <<<<240, 159, 152, 128>>>>,            \* 257 bytes, cut inside a 4-byte char
-    b300     |-> Rep(<<98>>, 300) ]
-Shapes == DOMAIN NameShapes
-
-TName(id) == <<<<84>>>> \o (IF id = 1 THEN <<<<49>>>> ELSE IF id = 118 THEN <<<<56>>>> ELSE <<<<120>>>>)   \* "T1", "T8", "Tx"
-
-Default ==
-  [ fam |-> "0", extra |-> {2}, tshape |-> "short", gshape |-> "short", dshape |-> "short",
-    flags |-> <<FALSE, 0>>, pat |-> 2, gsel |-> 1, osel |-> 1, rsel |-> 1,
-    version |-> <<2024, 12, 31>>, v |-> 3, perm |-> FALSE ]
-
-FamA == {[Default EXCEPT !.fam = "A", !.tshape = ts, !.gshape = gs, !.dshape = gs, !.v = v, !.perm = pm] :
-           ts \in Shapes, gs \in Shapes, v \in 1..3, pm \in BOOLEAN}
-FamB == {[Default EXCEPT !.fam = "B", !.extra = ex, !.pat = pt, !.flags = fl, !.v = v, !.perm = pm] :
-           ex \in SUBSET {2, 9999999}, pt \in 1..3, fl \in {<<FALSE, 0>>, <<TRUE, 0>>, <<TRUE, 118>>, <<FALSE, 1>>},
-           v \in 1..3, pm \in BOOLEAN}
-FamC == {[Default EXCEPT !.fam = "C", !.gsel = g, !.osel = o, !.rsel = r, !.version = ver, !.v = v, !.perm = pm] :
-           g \in 0..2, o \in 0..2, r \in 0..1, ver \in {<<0, 0, 0>>, <<2024, 12, 31>>, <<65535, 255, 255>>},
-           v \in 1..3, pm \in BOOLEAN}
-
-FamD == {q \in FamA : q.tshape = q.gshape}    \* the diagonal of family A (quick tier)
 
 Params == {[q EXCEPT !.fam = "D"] : q \in (IF "D" \in Families THEN FamD ELSE {})} \cup (IF "A" \in Families THEN FamA ELSE {}) \cup (IF "B" \in Families THEN FamB ELSE {})
           \cup (IF "C" \in Families THEN FamC ELSE {})
@@ -63,48 +29,7 @@ Next ==
                           /\ c' \in {q \in Params : q.fam = f /\ q.v = c.v /\ q.perm = c.perm}
 Spec == Init /\ [][Next]_c
 
-TermIds(p) == {1, 118} \cup p.extra
-Flagged(p) == IF p.extra = {} THEN 118 ELSE CHOOSE x \in p.extra : \A y \in p.extra : x <= y
-
-ParentsOf(p, t) ==
-  CASE p.pat = 1 -> {}
-    [] p.pat = 2 -> IF t = 1 THEN {} ELSE IF t = 118 THEN {1} ELSE {118}
-    [] p.pat = 3 -> IF t = 1 THEN {} ELSE IF t = 118 THEN {1} ELSE {1, 118}
-
-Ont(p) ==
-  LET ids  == Sorted(TermIds(p))
-      mx   == ids[Len(ids)]
-      gene == CASE p.gsel = 0 -> <<>>
-                [] p.gsel = 1 -> <<[id |-> 7, name |-> NameShapes[p.gshape], terms |-> Sorted({118, mx})]>>
-                [] p.gsel = 2 -> <<[id |-> 7, name |-> NameShapes[p.gshape], terms |-> <<mx>>]>>
-                                 \o <<[id |-> 2000000000, name |-> NameShapes["nonascii"], terms |-> <<>>]>>
-      omim == CASE p.osel = 0 -> <<>>
-                [] p.osel = 1 -> <<[id |-> 7, name |-> NameShapes[p.dshape], terms |-> <<mx>>]>>
-                [] p.osel = 2 -> <<[id |-> 7, name |-> NameShapes[p.dshape], terms |-> <<1>>]>>
-                                 \o <<[id |-> 600000, name |-> NameShapes["b300"], terms |-> <<>>]>>
-      orpha == IF p.rsel = 0 THEN <<>> ELSE <<[id |-> 7, name |-> NameShapes["colon"], terms |-> <<118>>]>>
-  IN [ version |-> p.version,
-       terms   |-> [i \in 1..Len(ids) |->
-                      [ id |-> ids[i],
-                        name |-> IF ids[i] = 118 THEN NameShapes[p.tshape] ELSE TName(ids[i]),
-                        obsolete |-> IF ids[i] = Flagged(p) THEN p.flags[1] ELSE FALSE,
-                        repl |-> IF ids[i] = Flagged(p) THEN p.flags[2] ELSE 0 ]],
-       parents |-> [i \in 1..Len(ids) |-> [id |-> ids[i], parents |-> Sorted(ParentsOf(p, ids[i]))]],
-       gene |-> gene, omim |-> omim, orpha |-> orpha ]
-
-Permuted(o, pm) ==
-  IF ~pm THEN o
-  ELSE [o EXCEPT !.terms = Reverse(@), !.parents = Reverse(@), !.gene = Reverse(@), !.omim = Reverse(@), !.orpha = Reverse(@)]
-
 File(p) == Encode(Permuted(Ont(p), p.perm), p.v)
-
-(* semantic projection of what the version-v file carries *)
-RecFun(rs) == [x \in {rs[i].id : i \in 1..Len(rs)} |->
-                 LET r == CHOOSE q \in Range(rs) : q.id = x IN [name |-> 0, hpos |-> Range(r.terms)]]
-ProjOf(ro) ==
-  LET ids == {ro.terms[i].id : i \in 1..Len(ro.terms)}
-      par == [t \in ids |-> LET q == CHOOSE r \in Range(ro.parents) : r.id = t IN Range(q.parents)]
-  IN ProjPure(Sorted(ids), par, RecFun(ro.gene), RecFun(ro.omim), RecFun(ro.orpha))
 
 Leaf == c.fam \in {"A", "B", "C", "D"}
 
